@@ -437,11 +437,54 @@ def run(ctx):
                 ctx.bad("R13.5", NS + "parser", op + "-implicit",
                         "group::%s is a `%s` to the owning parser and parser's %s is compiler-generated: after `parser b = std::move(a)` the moved groups "
                         "still refer to `a` (dangling once `a` dies; name checks consult the wrong parser)" % (fl["name"], fl["type"], op.replace("_", " ")), where)
+    # ---- R13.9: the parser keeps no second copy of the declarations. A data member of parser whose type mentions an option kind is
+    # derived from the groups' maps; reading it on the parse path is only sound when EVERY declaration function keeps it current -
+    # options are declared through group references too, which never pass through the parser's own shorthands
+    ctx.rule("R13.9", "a parser data member that holds options (an index / cache over the groups' maps) and is read on the parse path is updated by every declaration function of group")
+    pcls9 = prog.cls(NS + "parser")
+    preach = cg.reachable([PARSE_VEC])
+    derived = {}
+    for fl in (pcls9 or {}).get("fields", []):
+        t = (fl.get("ctype") or fl.get("type") or "")
+        if fl.get("static") or short(fl["qual"]) in ("groups_", "group_order_"):
+            continue
+        if re.search(r"options::(toggle|option|multi_option|base)\b", t) or re.search(r"\b(toggle|multi_option|option|base) ?\*", t):
+            derived[fl["qual"]] = t
+    nread = 0
+    for fq, t in sorted(derived.items()):
+        readers = []
+        for fid in preach:
+            g = prog.fn(fid)
+            if g is None or not g.has_cfg or g.cls != NS + "parser":
+                continue
+            if any(isinstance(y, dict) and y.get("k") == "member" and y.get("field") == fq for _, _, e in g.all_elems() if e.get("expr") is not None for y in walk(e["expr"])) \
+                    or any(isinstance(y, dict) and y.get("k") == "member" and y.get("field") == fq for b0 in g.blocks for c0 in [g.term(b0).get("cond")] if isinstance(c0, dict) for y in walk(c0)):
+                readers.append(g)
+        if not readers:
+            continue
+        nread += 1
+        writers = set()
+        for g in prog.fns.values():
+            if g.has_cfg and g.file.startswith("/repo/"):
+                for (w, base, n2, b2, i2, how) in cg.field_writes(g):
+                    if w == fq:
+                        writers.add(g.qual)
+        need_w = {NS + "group::" + k for k in kind_maps}
+        ctx.check(need_w <= writers, "R13.9", readers[0], "no-stale-copy-of-the-declarations:" + short(fq),
+                  "parser::%s (%s) is read on the parse path (%s) but %s never update it: an option declared through a group reference after it was filled is invisible to parsing "
+                  "(its occurrences are rejected or not counted) while prepare/check/usage still see it" % (short(fq), t[:60], ", ".join(sorted(short(r.qual) for r in readers))[:80],
+                                                                                                    sorted(short(x) for x in need_w - writers)), readers[0])
+    if not nread:
+        ctx.ok("R13.9", NS + "parser", "no-stale-copy-of-the-declarations", "no data member of parser holds options (%d members scanned)" % len((pcls9 or {}).get("fields", [])), "-")
     # ---- R13.7: resolution compares what the uniqueness guard compares - the declared names themselves (R01.5 re-evaluated)
     ctx.rule("R13.7", "matches() compares the token's whole name with the option's own name by plain equality (R01.5 re-evaluated): an equivalence wider than the declaration-time uniqueness check lets one spelling resolve to two options")
     if ctx.prop == "C13" and not getattr(ctx, "_sharing", False):
         from .common import share
         share(ctx, "C01", ("R01.5",), "R13.7", "matching obligations shared with C01", 4)
+    ctx.rule("R13.8", "the parser-level declaration shorthands go to the default group, found by its key (R15.2 re-evaluated): which group a re-declaration meets does not depend on how groups are named")
+    if ctx.prop == "C13" and not getattr(ctx, "_sharing", False):
+        from .common import share
+        share(ctx, "C15", ("R15.2",), "R13.8", "default-group obligations shared with C15", 3)
     ctx.assume("new declaration entry points are picked up by R13.4's exhaustiveness, not by R13.1")
 
 
